@@ -149,15 +149,21 @@ class LaxBoundedSemaphore(_Semaphore):
     """Semaphore that checks that # release is <= # acquires,
     but ignores if # releases >= value."""
 
-    def shrink(self):
-        self._initial_value -= 1
-        self.acquire()
-
     if PY3:
 
         def __init__(self, value=1, verbose=None):
             _Semaphore.__init__(self, value)
             self._initial_value = value
+
+        def shrink(self):
+            # lower the bound and take the slot in one step: a release()
+            # landing in between was dropped (value == new bound) and the
+            # slot it gave back was lost for good.
+            with self._cond:
+                self._initial_value -= 1
+                while not self._value:
+                    self._cond.wait()
+                self._value -= 1
 
         def grow(self):
             with self._cond:
@@ -180,6 +186,10 @@ class LaxBoundedSemaphore(_Semaphore):
         def __init__(self, value=1, verbose=None):
             _Semaphore.__init__(self, value, verbose)
             self._initial_value = value
+
+        def shrink(self):
+            self._initial_value -= 1
+            self.acquire()
 
         def grow(self):
             cond = self._Semaphore__cond
